@@ -162,6 +162,8 @@ class Exec:
         self.depth = depth
         self.env = {}
         self.mem = mem if mem is not None else {}
+        self.concrete = {}         # lvalue term -> integer: dimension fields fixed by a rule that interprets a function for small sizes
+        self.unroll = False        # with concrete dimensions: loops whose conditions evaluate to constants are unrolled
         self.ctor_fields = set()   # members initialised by this constructor's initialiser list (readable back)
         self.extents = {}   # local array / std::vector cell -> number of elements
         self.elem = {}      # the last element store `p[e] = v` (any root, symbolic subscript): forwarded to the loads of exactly
@@ -232,6 +234,10 @@ class Exec:
                 if dv.get("k") == "var":
                     self.declare(dv, out)
             return "fall"
+        if self.unroll and k in ("for", "while", "do"):
+            r_ = self._unrolled(node, out)
+            if r_ is not None:
+                return r_
         if k in ("if", "for", "while", "do", "forrange", "asm", "switch", "try"):
             self.elem = {}
         if k == "if":
@@ -314,6 +320,53 @@ class Exec:
             if cc[1] in ("<", "<=") and cb == cc[2] and ca == cc[3] and ca == lo:
                 return cb
         return hi
+
+    def _unrolled(self, node, out, limit=4096):
+        """Concrete-dimension mode: a loop whose condition evaluates to a constant at every test is executed iteration by
+        iteration (its body interpreted symbolically each time), so loop-carried control state (a wrapped index, a sign flag)
+        is followed exactly.  Returns the status, or None when some test is not a constant (nothing is emitted then)."""
+        k = node.get("k")
+        env0, mem0, n0 = dict(self.env), dict(self.mem), len(out)
+        tmp = []
+
+        def fail():
+            self.env = env0
+            self.mem.clear()
+            self.mem.update(mem0)
+            return None
+        if k == "for" and node.get("init") is not None:
+            init = node["init"]
+            if init.get("k") == "decl":
+                self.block(init, tmp)
+            else:
+                self.ev(init, tmp, stmt=True)
+        cond, body, inc = node.get("c"), node.get("body"), node.get("inc") if k == "for" else None
+        first = (k == "do")
+        n_it = 0
+        while True:
+            if not first:
+                if cond is not None:
+                    c = sym.const_value(self.ev(cond, tmp))
+                    if c is None:
+                        return fail()
+                    if not c:
+                        break
+            first = False
+            saved_ce, self._cont_envs = getattr(self, "_cont_envs", None), None
+            st = self.block(body, tmp)
+            self._cont_envs = saved_ce
+            if st in ("return", "exit"):
+                out.extend(tmp)
+                return st
+            if st == "break":
+                break
+            if inc is not None:
+                self.ev(inc, tmp, stmt=True)
+            n_it += 1
+            if n_it > limit:
+                return fail()
+        out.extend(tmp)
+        return "fall"
 
     def _forrange_counted(self, node, out):
         """for (T &e : v) over a local std::vector<T> v(n) or a local array: the counted loop u in [0, n) with e = v[u]"""
@@ -1412,6 +1465,8 @@ class Exec:
                 self.mem[lv] = val
 
     def load(self, lv):
+        if self.concrete and lv in self.concrete:
+            return I(self.concrete[lv])
         if lv in self.mem:
             return self.mem[lv]
         if lv in self.elem:
@@ -1619,6 +1674,7 @@ class Exec:
             # (a closure's body is always part of the function that wrote it)
             sub = Exec(self.v, callee, args=args, this=this, hooks=self.hooks, casts=self.casts,
                        depth=self.depth + 1, mem=self.mem)
+            sub.concrete, sub.unroll = self.concrete, self.unroll
             if callee.get("lambda"):
                 # a closure sees the variables of the function that wrote it (captures)
                 for cid, cval in self.env.items():
@@ -1751,7 +1807,10 @@ def paths(effects, limit=4096):
     yield from go(list(effects), 0, [], [])
 
 
-def run_function(variant, fn, args=None, hooks=None, casts="drop", this=None):
+def run_function(variant, fn, args=None, hooks=None, casts="drop", this=None, concrete=None):
     ex = Exec(variant, fn, args=args, hooks=hooks, casts=casts, this=this)
+    if concrete:
+        ex.concrete = dict(concrete)
+        ex.unroll = True
     eff, st = ex.run()
     return eff, st, ex
